@@ -469,7 +469,7 @@ impl NodeStream {
             v.join(",")
         };
         format!(
-            "iter=[{}] puts=[{}] putsenders=[{}] getsenders=[{}] live={} raw={} cap={} to={} cache=[{}] stats={}/{}/{}/{:x}/{:x} sstats={}/{}/{}/{:x}/{:x} mode={}{} fw={} pub={} rt=[{}] srt=[{}]",
+            "iter=[{}] puts=[{}] putsenders=[{}] getsenders=[{}] live={} raw={} cap={} to={} cache=[{}] stats={}/{}/{}/{}/{} sstats={}/{}/{}/{}/{} mode={}{} fw={} pub={} rt=[{}] srt=[{}]",
             ids(&s.iterative_queries),
             ids(&s.put_queries),
             cnt(&s.put_senders),
@@ -487,13 +487,13 @@ impl NodeStream {
             s.stats.0,
             s.stats.2,
             s.stats.4,
-            s.stats.1.to_bits() >> 12,
-            s.stats.3.to_bits() >> 12,
+            (s.stats.1 * 64.0).round() as i64,
+            (s.stats.3 * 64.0).round() as i64,
             s.signed_stats.0,
             s.signed_stats.2,
             s.signed_stats.4,
-            s.signed_stats.1.to_bits() >> 12,
-            s.signed_stats.3.to_bits() >> 12,
+            (s.signed_stats.1 * 64.0).round() as i64,
+            (s.signed_stats.3 * 64.0).round() as i64,
             if s.server_mode { "s" } else { "c" },
             if s.socket_server_mode { "s" } else { "c" },
             s.firewalled as u8,
@@ -565,10 +565,12 @@ impl NodeStream {
         // read-only requesters never enter a routing table; read-only responders neither
         for (table, name) in [(&s.routing_table, "routing table"), (&s.signed_peers_routing_table, "signed peers routing table")] {
             for (_, addr, _) in table.iter() {
-                if self.ro_requesters.get(addr) == Some(&true) && !self.answered.contains_key(addr) {
+                if self.ro_requesters.get(addr) == Some(&true) && !self.any_reply.contains_key(addr) {
                     out.violation("C18", "read-only-requester-in-table", format!("{addr} only ever sent read-only requests and never answered us, but is in the {name}"));
                 }
-                if self.ro_responders.contains(addr) && !self.answered.contains_key(addr) {
+                // (a peer that also answered without the flag — however slowly — or sent a request without
+                // it may be in the table for that)
+                if self.ro_responders.contains(addr) && !self.any_reply.contains_key(addr) && self.ro_requesters.get(addr) != Some(&false) {
                     out.violation("C18", "read-only-responder-in-table", format!("{addr} only answered with ro=1 replies, but is in the {name}"));
                 }
             }
@@ -594,7 +596,9 @@ impl NodeStream {
         }
         // an empty table is bootstrapped again: a node with a bootstrap list never sits idle on it
         if let Some(prev) = &self.last_snapshot {
-            if prev.routing_table.is_empty() && s.routing_table.is_empty() && self.has_bootstrap && self.sent_since_snap == 0 {
+            // (a bootstrap lookup that is still waiting for answers sends nothing either: only two
+            // snapshots without any lookup count)
+            if prev.routing_table.is_empty() && s.routing_table.is_empty() && self.has_bootstrap && self.sent_since_snap == 0 && prev.iterative_queries.is_empty() && s.iterative_queries.is_empty() {
                 out.violation("C14", "empty-table-not-bootstrapped", "the routing table was empty at two successive snapshots and the node sent nothing in between: it is not retrying its bootstrap nodes".into());
             }
         }
@@ -1153,6 +1157,9 @@ pub struct InFlight {
     pub ro: bool,
     pub ip: Option<SocketAddrV4>,
     pub seq: u64,
+    /// the transaction id of the request this answers (of the message itself, for a looped-back
+    /// datagram): when the node has meanwhile sent the same request again, `re=` would name the newer one
+    pub tid: Option<u32>,
 }
 
 fn signable_mut(seq: i64, v: &[u8], salt: Option<&[u8]>) -> Vec<u8> {
@@ -1218,7 +1225,7 @@ pub fn step_line(f: &InFlight) -> String {
     let bytes = m.to_bytes().expect("enc");
     match &f.re {
         Some(k) => format!("step from={} re={} msg={}", addr_s(&f.from), k, hex(&bytes)),
-        None => format!("step from={} tid={} msg={}", addr_s(&f.from), 1000 + f.seq, hex(&bytes)),
+        None => format!("step from={} tid={} msg={}", addr_s(&f.from), f.tid.map(|t| t as u64).unwrap_or(1000 + f.seq), hex(&bytes)),
     }
 }
 
@@ -1252,7 +1259,7 @@ impl<'a> Driver<'a> {
     /// a peer sends a request to the node
     pub fn inject_request(&mut self, from: SocketAddrV4, requester: Id, rt: RequestTypeSpecific, ro: bool) {
         self.seq += 1;
-        self.queue.push(InFlight { due: verif::now_ns(), from, re: None, mt: MessageType::Request(dht::RequestSpecific { requester_id: requester, request_type: rt }), ro, ip: None, seq: self.seq });
+        self.queue.push(InFlight { due: verif::now_ns(), from, re: None, mt: MessageType::Request(dht::RequestSpecific { requester_id: requester, request_type: rt }), ro, ip: None, seq: self.seq, tid: None });
     }
     pub fn begin(&mut self, mode: &str, boot: &[SocketAddrV4], public: Option<Ipv4Addr>, seed: u64, t0: u64) {
         self.begin_at(mode, boot, public, None, seed, t0)
@@ -1275,7 +1282,7 @@ impl<'a> Driver<'a> {
             if s.to == self.s.addr && self.reachable {
                 // the node's own datagram loops back to it
                 self.seq += 1;
-                self.queue.push(InFlight { due: now + self.latency, from: self.s.addr, re: s.key.clone(), mt: s.msg.message_type().clone(), ro: s.msg.read_only(), ip: s.msg.requester_ip(), seq: self.seq });
+                self.queue.push(InFlight { due: now + self.latency, from: self.s.addr, re: s.key.clone(), mt: s.msg.message_type().clone(), ro: s.msg.read_only(), ip: s.msg.requester_ip(), seq: self.seq, tid: Some(s.msg.transaction_id()) });
                 continue;
             }
             let MessageType::Request(req) = s.msg.message_type() else { continue };
@@ -1300,10 +1307,10 @@ impl<'a> Driver<'a> {
             }
             self.seq += 1;
             let seen_as = Some(self.report_ip.unwrap_or(self.s.addr));
-            self.queue.push(InFlight { due, from, re: s.key.clone(), mt: mt.clone(), ro, ip: seen_as, seq: self.seq });
+            self.queue.push(InFlight { due, from, re: s.key.clone(), mt: mt.clone(), ro, ip: seen_as, seq: self.seq, tid: Some(s.msg.transaction_id()) });
             if self.net.peers[i].mode == 2 || self.rng.below(100) < self.dup_pct {
                 self.seq += 1;
-                self.queue.push(InFlight { due: due + MS, from, re: s.key.clone(), mt, ro, ip: seen_as, seq: self.seq });
+                self.queue.push(InFlight { due: due + MS, from, re: s.key.clone(), mt, ro, ip: seen_as, seq: self.seq, tid: Some(s.msg.transaction_id()) });
             }
         }
     }
@@ -1318,6 +1325,18 @@ impl<'a> Driver<'a> {
     /// deliver the next due datagram, or idle and let `dt` pass
     pub fn pump(&mut self, dt: u64) {
         let now = verif::now_ns();
+        if self.queue.len() > 20_000 && std::env::var("MVH_TRACE").is_ok() {
+            eprintln!("mvh: queue of {} datagrams at {now}", self.queue.len());
+            for f in self.queue.iter().take(6) {
+                eprintln!("  due={} from={} re={:?} {}", f.due, f.from, f.re, step_line(f).chars().take(160).collect::<String>());
+            }
+            let lines = self.out.case_lines();
+            for l in lines.iter().rev().take(12).rev() {
+                eprintln!("  op: {}", l.chars().take(200).collect::<String>());
+            }
+            eprintln!("  case has {} ops; header: {}", lines.len(), lines.first().cloned().unwrap_or_default());
+            std::process::exit(3);
+        }
         self.queue.sort_by_key(|f| (f.due, f.seq));
         if let Some(pos) = self.queue.iter().position(|f| f.due <= now) {
             let f = self.queue.remove(pos);
@@ -1326,8 +1345,17 @@ impl<'a> Driver<'a> {
                     self.run(k);
                 }
             }
+            // an answer to a request the node has since sent again (same destination, kind and target) is
+            // delivered under its own transaction id, not under the newer request's
+            let mut f = f;
+            let key = f.re.clone();
+            if let (Some(k), Some(t)) = (&f.re, f.tid) {
+                if self.s.reqs.get(k) != Some(&t) {
+                    f.re = None;
+                }
+            }
             let line = step_line(&f);
-            if let Some(k) = &f.re {
+            if let Some(k) = &key {
                 self.delivered.push((k.clone(), f.from, f.mt.clone()));
             }
             self.run(line);
@@ -1501,6 +1529,111 @@ pub fn imm_target(v: &[u8]) -> Id {
     Id::from_bytes(sha1_ref(&enc)).expect("id")
 }
 
+// ---- R: everything at once, at random: address plan, id security, peer behaviour (silent, slow,
+//         duplicating, forging, read-only, rejecting), loss, transaction id wrap, node mode, reachability,
+//         time gaps, every API call with salts (also binary) on few targets.  The model and the
+//         generic oracles (authenticity, no panic, every call returns, statistics, quiescence) judge.
+pub fn chaos_round(out: &mut Out, rng: &mut Rng, t0: u64, round: usize) {
+        let n = *rng.pick(&[1usize, 2, 4, 9, 22, 45]);
+    let public = rng.chance(1, 2);
+    let mut net = VNet::new(rng, n, !public);
+    let item_salts: [Option<&[u8]>; 4] = [None, Some(b"salt"), Some(b"\x80profile"), Some(b"")];
+    for (i, p) in net.peers.iter_mut().enumerate() {
+        if public && rng.chance(1, 2) {
+            let r = rng.below(256) as u8;
+            p.id = Id::from_bytes(crate::streams::closest::secure_id(rng, *p.addr.ip(), r)).expect("id");
+        }
+        if i > 0 || rng.chance(1, 3) {
+            p.mode = *rng.pick(&[0u8, 0, 0, 0, 1, 2, 3]);
+            p.put_reply = *rng.pick(&[0i32, 0, 0, 0, 203, 205, 301, 302]);
+            p.forge = *rng.pick(&[0u8, 0, 0, 0, 0, 1, 2, 3, 5, 7, 8]);
+            p.extra_delay = *rng.pick(&[0u64, 0, 0, 20, 510, 700, 1300]) * MS;
+            p.put_delay = *rng.pick(&[0u64, 0, 100, 600]) * MS;
+            p.read_only = rng.chance(1, 12);
+            p.ro_puts = rng.chance(1, 12);
+            p.ignore_gets = rng.chance(1, 15);
+            p.ignore_puts = rng.chance(1, 15);
+        }
+        // some peers already hold items of the key the calls below use
+        if rng.chance(1, 3) {
+            let salt = *rng.pick(&item_salts);
+            let item = MutableItem::new(&key_from_seed(9), b"held", rng.below(4) as i64 + 1, salt);
+            p.muts.insert(*item.target(), (item.value().to_vec(), *item.key(), item.seq(), *item.signature()));
+        }
+    }
+    let boot: Vec<SocketAddrV4> = if rng.chance(1, 8) { vec![] } else { net.peers.iter().take(1 + rng.below(2) as usize).map(|p| p.addr).collect() };
+    let mut d = Driver::new(out, rng.next(), net);
+    d.drop_pct = *rng.pick(&[0u64, 0, 0, 10, 40]);
+    d.dup_pct = *rng.pick(&[0u64, 0, 15]);
+    d.late_pct = *rng.pick(&[0u64, 0, 15]);
+    d.reachable = rng.chance(1, 2);
+    if rng.chance(1, 3) {
+        d.tid0 = Some(u32::MAX - rng.below(30) as u32);
+    }
+    let mode = if rng.chance(1, 4) { "s" } else { "c" };
+    let (cfg_pub, real_ip) = if public {
+        let ip = Ipv4Addr::new(45, 9, rng.below(200) as u8, 1 + rng.below(200) as u8);
+        if rng.chance(1, 2) { (Some(ip), None) } else { (None, Some(ip)) }
+    } else {
+        (None, None)
+    };
+    d.begin_at(mode, &boot, cfg_pub, real_ip, rng.next() % 1_000_000 + 1, t0);
+    d.run_for(SEC, 10 * MS);
+    let targets: Vec<Id> = (0..2).map(|_| Id::from_bytes(rng.id20()).expect("id")).collect();
+    let v = format!("chaos {}", round % 3).into_bytes();
+    let vt = imm_target(&v);
+    let pk = hex(key_from_seed(9).verifying_key().as_bytes());
+    let sh = |s: Option<&[u8]>| s.map(hex).unwrap_or("none".into());
+    for _ in 0..(8 + rng.below(14)) {
+        let t = *rng.pick(&targets);
+        let salt = *rng.pick(&item_salts);
+        let call = match rng.below(14) {
+            0 => format!("find_node t={}", hex(t.as_bytes())),
+            1 => format!("closest t={}", hex(t.as_bytes())),
+            2 => format!("get_imm t={}", hex(vt.as_bytes())),
+            3 => format!("put_imm v={}", hex(&v)),
+            4 => format!("get_peers ih={}", hex(t.as_bytes())),
+            5 => format!("announce ih={} port={}", hex(t.as_bytes()), if rng.chance(1, 2) { "implied".to_string() } else { "7001".to_string() }),
+            6 | 7 => put_mut_call(9, rng.below(6) as i64, if rng.chance(1, 2) { b"m1" } else { b"m2" }, salt, if rng.chance(1, 3) { Some(rng.below(6) as i64) } else { None }),
+            8 | 9 => format!("get_mut k={pk} salt={} seq={}", sh(salt), if rng.chance(1, 3) { rng.below(5).to_string() } else { "none".into() }),
+            10 => sannounce_call(&t, 5),
+            11 => format!("get_speers ih={}", hex(t.as_bytes())),
+            12 => "info".to_string(),
+            _ => format!("find_node t={}", hex(vt.as_bytes())),
+        };
+        d.api(call);
+        match rng.below(6) {
+            0 => d.run_for(*rng.pick(&[61u64, 310, 905]) * SEC, SEC),
+            1 => { d.settle(20 * SEC, 10 * MS); }
+            _ => {
+                for _ in 0..rng.below(15) {
+                    d.pump(5 * MS);
+                }
+            }
+        }
+        if rng.chance(1, 6) {
+            // an unsolicited request from a stranger, sometimes from the node's own IP
+            let from = if rng.chance(1, 4) { SocketAddrV4::new(*d.s.addr.ip(), 7000) } else { SocketAddrV4::new(Ipv4Addr::new(10, 9, 0, 1 + rng.below(5) as u8), 6881) };
+            let rid = Id::from_bytes(rng.id20()).expect("id");
+            let rt = match rng.below(4) {
+                0 => RequestTypeSpecific::Ping,
+                1 => RequestTypeSpecific::FindNode(FindNodeRequestArguments { target: rid }),
+                2 => RequestTypeSpecific::GetValue(GetValueRequestArguments { target: vt, seq: None, salt: None }),
+                _ => RequestTypeSpecific::GetPeers(GetPeersRequestArguments { info_hash: t }),
+            };
+            d.inject_request(from, rid, rt, rng.chance(1, 3));
+        }
+        if rng.chance(1, 5) {
+            d.run("snap".into());
+        }
+    }
+    d.run("snap".into());
+    d.finish();
+    d.out.mark_distinct(d.rng.0 ^ 0x4a05 ^ round as u64);
+    d.out.count("chaos-round");
+    d.s.shutdown();
+}
+
 pub fn run(out: &mut Out, seed: u64, thorough: bool, replay: Option<&str>) {
     if let Some(p) = replay {
         let mut s = NodeStream::new();
@@ -1510,6 +1643,14 @@ pub fn run(out: &mut Out, seed: u64, thorough: bool, replay: Option<&str>) {
     }
     let mut rng = Rng::new(seed ^ 0x40de);
     let mut t0 = 8_000_000_000_000_000u64;
+    // hunting mode (not used by the registered checks): only the random scenario, many rounds
+    if let Some(n) = std::env::var("MVH_CHAOS").ok().and_then(|n| n.parse::<usize>().ok()) {
+        for round in 0..n {
+            t0 += 10_000_000_000_000;
+            chaos_round(out, &mut rng, t0, round);
+        }
+        return;
+    }
     let sizes: &[usize] = if thorough { &[1, 2, 3, 8, 25, 60] } else { &[1, 3, 25] };
     // ---- A: honest network, every API once, client mode
     for &n in sizes {
@@ -2265,110 +2406,10 @@ pub fn run(out: &mut Out, seed: u64, thorough: bool, replay: Option<&str>) {
             d.s.shutdown();
         }
     }
-    // ---- R: everything at once, at random: address plan, id security, peer behaviour (silent, slow,
-    //         duplicating, forging, read-only, rejecting), loss, transaction id wrap, node mode, reachability,
-    //         time gaps, every API call with salts (also binary) on few targets.  The model and the
-    //         generic oracles (authenticity, no panic, every call returns, statistics, quiescence) judge.
-    for round in 0..(if thorough { 60 } else { 12 }) {
+    // ---- R: everything at once, at random (see `chaos_round`)
+    for round in 0..(if thorough { 40 } else { 12 }) {
         t0 += 10_000_000_000_000;
-        let n = *rng.pick(&[1usize, 2, 4, 9, 22, 45]);
-        let public = rng.chance(1, 2);
-        let mut net = VNet::new(&mut rng, n, !public);
-        let item_salts: [Option<&[u8]>; 4] = [None, Some(b"salt"), Some(b"\x80profile"), Some(b"")];
-        for (i, p) in net.peers.iter_mut().enumerate() {
-            if public && rng.chance(1, 2) {
-                let r = rng.below(256) as u8;
-                p.id = Id::from_bytes(crate::streams::closest::secure_id(&mut rng, *p.addr.ip(), r)).expect("id");
-            }
-            if i > 0 || rng.chance(1, 3) {
-                p.mode = *rng.pick(&[0u8, 0, 0, 0, 1, 2, 3]);
-                p.put_reply = *rng.pick(&[0i32, 0, 0, 0, 203, 205, 301, 302]);
-                p.forge = *rng.pick(&[0u8, 0, 0, 0, 0, 1, 2, 3, 5, 7, 8]);
-                p.extra_delay = *rng.pick(&[0u64, 0, 0, 20, 510, 700, 1300]) * MS;
-                p.put_delay = *rng.pick(&[0u64, 0, 100, 600]) * MS;
-                p.read_only = rng.chance(1, 12);
-                p.ro_puts = rng.chance(1, 12);
-                p.ignore_gets = rng.chance(1, 15);
-                p.ignore_puts = rng.chance(1, 15);
-            }
-            // some peers already hold items of the key the calls below use
-            if rng.chance(1, 3) {
-                let salt = *rng.pick(&item_salts);
-                let item = MutableItem::new(&key_from_seed(9), b"held", rng.below(4) as i64 + 1, salt);
-                p.muts.insert(*item.target(), (item.value().to_vec(), *item.key(), item.seq(), *item.signature()));
-            }
-        }
-        let boot: Vec<SocketAddrV4> = if rng.chance(1, 8) { vec![] } else { net.peers.iter().take(1 + rng.below(2) as usize).map(|p| p.addr).collect() };
-        let mut d = Driver::new(out, rng.next(), net);
-        d.drop_pct = *rng.pick(&[0u64, 0, 0, 10, 40]);
-        d.dup_pct = *rng.pick(&[0u64, 0, 15]);
-        d.late_pct = *rng.pick(&[0u64, 0, 15]);
-        d.reachable = rng.chance(1, 2);
-        if rng.chance(1, 3) {
-            d.tid0 = Some(u32::MAX - rng.below(30) as u32);
-        }
-        let mode = if rng.chance(1, 4) { "s" } else { "c" };
-        let (cfg_pub, real_ip) = if public {
-            let ip = Ipv4Addr::new(45, 9, rng.below(200) as u8, 1 + rng.below(200) as u8);
-            if rng.chance(1, 2) { (Some(ip), None) } else { (None, Some(ip)) }
-        } else {
-            (None, None)
-        };
-        d.begin_at(mode, &boot, cfg_pub, real_ip, rng.next() % 1_000_000 + 1, t0);
-        d.run_for(SEC, 10 * MS);
-        let targets: Vec<Id> = (0..2).map(|_| Id::from_bytes(rng.id20()).expect("id")).collect();
-        let v = format!("chaos {}", round % 3).into_bytes();
-        let vt = imm_target(&v);
-        let pk = hex(key_from_seed(9).verifying_key().as_bytes());
-        let sh = |s: Option<&[u8]>| s.map(hex).unwrap_or("none".into());
-        for _ in 0..(8 + rng.below(14)) {
-            let t = *rng.pick(&targets);
-            let salt = *rng.pick(&item_salts);
-            let call = match rng.below(14) {
-                0 => format!("find_node t={}", hex(t.as_bytes())),
-                1 => format!("closest t={}", hex(t.as_bytes())),
-                2 => format!("get_imm t={}", hex(vt.as_bytes())),
-                3 => format!("put_imm v={}", hex(&v)),
-                4 => format!("get_peers ih={}", hex(t.as_bytes())),
-                5 => format!("announce ih={} port={}", hex(t.as_bytes()), if rng.chance(1, 2) { "implied".to_string() } else { "7001".to_string() }),
-                6 | 7 => put_mut_call(9, rng.below(6) as i64, if rng.chance(1, 2) { b"m1" } else { b"m2" }, salt, if rng.chance(1, 3) { Some(rng.below(6) as i64) } else { None }),
-                8 | 9 => format!("get_mut k={pk} salt={} seq={}", sh(salt), if rng.chance(1, 3) { rng.below(5).to_string() } else { "none".into() }),
-                10 => sannounce_call(&t, 5),
-                11 => format!("get_speers ih={}", hex(t.as_bytes())),
-                12 => "info".to_string(),
-                _ => format!("find_node t={}", hex(vt.as_bytes())),
-            };
-            d.api(call);
-            match rng.below(6) {
-                0 => d.run_for(*rng.pick(&[61u64, 310, 905]) * SEC, SEC),
-                1 => { d.settle(20 * SEC, 10 * MS); }
-                _ => {
-                    for _ in 0..rng.below(15) {
-                        d.pump(5 * MS);
-                    }
-                }
-            }
-            if rng.chance(1, 6) {
-                // an unsolicited request from a stranger, sometimes from the node's own IP
-                let from = if rng.chance(1, 4) { SocketAddrV4::new(*d.s.addr.ip(), 7000) } else { SocketAddrV4::new(Ipv4Addr::new(10, 9, 0, 1 + rng.below(5) as u8), 6881) };
-                let rid = Id::from_bytes(rng.id20()).expect("id");
-                let rt = match rng.below(4) {
-                    0 => RequestTypeSpecific::Ping,
-                    1 => RequestTypeSpecific::FindNode(FindNodeRequestArguments { target: rid }),
-                    2 => RequestTypeSpecific::GetValue(GetValueRequestArguments { target: vt, seq: None, salt: None }),
-                    _ => RequestTypeSpecific::GetPeers(GetPeersRequestArguments { info_hash: t }),
-                };
-                d.inject_request(from, rid, rt, rng.chance(1, 3));
-            }
-            if rng.chance(1, 5) {
-                d.run("snap".into());
-            }
-        }
-        d.run("snap".into());
-        d.finish();
-        d.out.mark_distinct(d.rng.0 ^ 0x4a05 ^ round as u64);
-        d.out.count("chaos-round");
-        d.s.shutdown();
+        chaos_round(out, &mut rng, t0, round);
     }
     // ---- S: peers first met by a lookup that they answer WITH a value (C14): whoever answers one of the
     //         node's requests is in its routing table afterwards (small network: no capacity or IP limit)
